@@ -5,7 +5,7 @@ var zzC02Menu = []string{
 	"i(v:1)", "i(v:\"s\")", "i(zz:1)", "i(v:1,v:2)", "i(v:$k)", "i(v:$s)", "i(v:3000000000)",
 	"r", "r(x:1)", "r(x:$k)", "r(x:$kd)", "r(x:$kn)",
 	"e(c:RED)", "e(c:PINK)", "e(c:\"RED\")",
-	"io(in:{b:\"x\"})", "io(in:{a:1})", "io(in:{b:\"x\",zz:1})", "io(in:{b:\"x\",b:\"y\"})", "io(in:{b:$s,a:$k})", "io(in:{b:$k})",
+	"io(in:{b:\"x\"})", "io(in:{a:1})", "io(in:{b:\"x\",zz:1})", "io(in:{b:\"x\",b:\"y\"})", "io(in:{b:$s,a:$k})", "io(in:{b:$k})", "io(in:{b:\"x\",n:{b:\"y\",a:1,a:2}})", "io(in:{b:\"x\",n:{a:1}})", "io(in:{b:\"x\",n:{b:\"y\",n:{b:$k}}})",
 	"li(l:[1,2])", "li(l:1)", "li(l:[\"a\"])", "li(l:[$k])", "li(l:$k)",
 	"a @skip(if:true)", "a @skip", "a @nope", "a @skip(iff:true)", "a @skip(if:1)", "a @deprecated", "a @skip(if:$b)", "a @skip(if:$k)", "a @skip(if:true,if:false)",
 	"...F", "...G", "...Missing", "... on Query{a}", "... on Obj{x}", "... on Nope{a}", "... on String{a}", "... on Node{id}",
@@ -172,6 +172,8 @@ var zzC02FragCfgs = []string{
 	" fragment F on Node{id}",
 	" fragment F on Query{...H} fragment G on Query{...H} fragment H on Query{i(v:$u)}",
 	" fragment F on Query{...G ...H} fragment G on Query{...H a} fragment H on Query{i(v:$u) ...G}",
+	" fragment G on Obj{ k:o{ v:x } } fragment F on Obj{ v:y }",
+	" fragment F on Query @onop @skip(if:true){ a }",
 }
 
 // ZZ_C02_fragments: fragment topologies and definitions.
@@ -180,7 +182,11 @@ func ZZ_C02_fragments() {
 	schema := zzBuildSchema(w)
 	roots := []string{"{ ...F }", "{ x:a ...F }", "{ a }", "query Q($k:Int){ ...F i(v:$k) }", "{ o{x ...F} }", "{ ...F ...F }", "{ n{...F} }",
 		"query A($u:Int){ ...F ...G } query B{ ...G }", "query A{ ...F ...G } query B($u:Int){ ...G }", "query A($u:Int){ ...F ...G } query B($u:String){ ...G }",
-		"query A($u:Int){ ...F } query B{ ...G } query C($u:Int){ ...H }"}
+		"query A($u:Int){ ...F } query B{ ...G } query C($u:Int){ ...H }",
+		"query Q @onop { a }", "mutation M @onop { m1 }", "subscription S @onop { a }", "{ a @onop ...F }",
+		// the same (fields, fragment) pair met first under mutually exclusive parents, then under the same parent type
+		"{ n{ ... on Obj{...G} ... on Query{ k:o{...F} } } o{ ...G k:o{...F} } }",
+		"{ o{ ...G k:o{...F} } n{ ... on Obj{...G} ... on Query{ k:o{...F} } } }"}
 	root := roots[zzChoice("root", len(roots))]
 	cfg := zzC02FragCfgs[zzChoice("frags", len(zzC02FragCfgs))]
 	zzCheckRules(&schema, root+cfg)
